@@ -4,6 +4,11 @@ manifest is always valid)."""
 import json, sys
 
 CHECKS = {
+ "C14": dict(
+   text="Addressing and codec agreement decided structurally: at every store write site the key is the hash of the very node written (insertNode stamp-hash-put, UpdateChanges keys[i]=hash(nodes[i]), persistent store Encode() under the given key, memory/layered stores pass key and node unchanged); the type-code tables of writer and reader are inverse; origin tracker and node header are written and read in the same (byte order, field) sequence; per node type separators written = separators scanned, fields written and read in the same order, child keys hex on both sides, and separator-unsafe fields only after the last separator.",
+   note="Does not decide byte-exact round trip for every value. AGREE-fields reads the codec functions' syntax (typed AST) and accepts only constant-bound loops; other shapes are reported as undecided.",
+   technique="writer/reader skeleton agreement over typed AST and go/ssa, key/index agreement at store write sites",
+   ref="DESIGN.md section 5 C14"),
  "C01": dict(
    text="Totality and pre-condition clauses of the map behaviour, decided on every path: each node-kind dispatch of lookup/insert/delete/iterate has an arm for every storable kind, no such arm is a panic and no panicking default is reachable with a nil node; Insert locks or mutates only after rejecting over-size values and routing nil/empty values to Delete; deleting at a value-less branch, under a mismatching leaf or below a nil child reports 'not present'; no extension node is ever built with an empty path (which would hide its subtree from lookups).",
    note="Does not decide that lookups return the last stored value for every history (path arithmetic and slicing are value-level), nor hex validation of paths (outside the quantifier). The 'non-nil node when no error' fact about getNode is assumed (named results, not constants).",
